@@ -370,4 +370,229 @@ theorem mem_setupFamilies (samples : List String) (trios : List Trio) (F : Famil
     simp [h2, h3]
 
 
+/-! ### union–find invariants of `setup_families` -/
+
+/-- the classes are pairwise disjoint (as sets; a class may be listed twice) -/
+def Disj (cls : Classes) : Prop := ∀ c ∈ cls, ∀ c' ∈ cls, ∀ z, z ∈ c → z ∈ c' → c = c'
+
+theorem classOf_of_mem (cls : Classes) (h : Disj cls) (c : List String) (hc : c ∈ cls) (x : String) (hx : x ∈ c) :
+    classOf cls x = c := by
+  unfold classOf
+  cases hf : cls.find? (·.contains x) with
+  | none =>
+    have := List.find?_eq_none.mp hf c hc
+    simp [hx] at this
+  | some c0 =>
+    have h0 : c0 ∈ cls := List.mem_of_find?_eq_some hf
+    have hx0 : x ∈ c0 := by simpa using List.find?_some hf
+    simp only [Option.getD_some]
+    exact h c0 h0 c hc x hx0 hx
+
+theorem self_mem_classOf (cls : Classes) (x : String) : x ∈ classOf cls x := by
+  unfold classOf
+  cases hf : cls.find? (·.contains x) with
+  | none => simp
+  | some c0 => simpa using List.find?_some hf
+
+theorem classOf_cases (cls : Classes) (x : String) : classOf cls x ∈ cls ∨ (classOf cls x = [x] ∧ ∀ c ∈ cls, x ∉ c) := by
+  unfold classOf
+  cases hf : cls.find? (·.contains x) with
+  | none =>
+    right
+    refine ⟨rfl, fun c hc hx => ?_⟩
+    have := List.find?_eq_none.mp hf c hc
+    simp [hx] at this
+  | some c0 => left; exact List.mem_of_find?_eq_some hf
+
+theorem classOf_eq_of_mem (cls : Classes) (h : Disj cls) (x z : String) (hz : z ∈ classOf cls x) :
+    classOf cls z = classOf cls x := by
+  rcases classOf_cases cls x with hc | ⟨he, _⟩
+  · exact classOf_of_mem cls h _ hc z hz
+  · rw [he] at hz
+    have : z = x := by simpa using hz
+    rw [this]
+
+theorem mergeCls_disj (cls : Classes) (h : Disj cls) (x y : String) : Disj (mergeCls cls x y) := by
+  unfold mergeCls
+  split
+  · exact h
+  · -- a kept class contains neither x nor y, hence meets neither class
+    have kept : ∀ c ∈ cls.filter (fun c => !c.contains x && !c.contains y), c ∈ cls ∧ x ∉ c ∧ y ∉ c := by
+      intro c hc
+      obtain ⟨h1, h2⟩ := List.mem_filter.mp hc
+      simp at h2
+      exact ⟨h1, h2.1, h2.2⟩
+    have apart : ∀ (w : String), ∀ c ∈ cls, w ∉ c → ∀ z, z ∈ classOf cls w → z ∉ c := by
+      intro w c hc hw z hz hzc
+      rcases classOf_cases cls w with hcw | ⟨he, _⟩
+      · have := h _ hcw c hc z hz hzc
+        exact hw (this ▸ self_mem_classOf cls w)
+      · rw [he] at hz
+        have : z = w := by simpa using hz
+        exact hw (this ▸ hzc)
+    intro c hc c' hc' z hz hz'
+    rcases List.mem_cons.mp hc with rfl | hck <;> rcases List.mem_cons.mp hc' with rfl | hck'
+    · rfl
+    · exfalso
+      obtain ⟨k1, k2, k3⟩ := kept c' hck'
+      rcases List.mem_append.mp hz with hzx | hzy
+      · exact apart x c' k1 k2 z hzx hz'
+      · exact apart y c' k1 k3 z hzy hz'
+    · exfalso
+      obtain ⟨k1, k2, k3⟩ := kept c hck
+      rcases List.mem_append.mp hz' with hzx | hzy
+      · exact apart x c k1 k2 z hzx hz
+      · exact apart y c k1 k3 z hzy hz
+    · exact h c (kept c hck).1 c' (kept c' hck').1 z hz hz'
+
+theorem classOf_head (L : List String) (rest : Classes) (a : String) (h : L.contains a = true) :
+    classOf (L :: rest) a = L := by
+  simp only [classOf, List.find?_cons, h, Option.getD_some]
+
+theorem mergeCls_pos (cls : Classes) (x y : String) (hc : (classOf cls x).contains y = true) : mergeCls cls x y = cls := by
+  unfold mergeCls; rw [if_pos hc]
+
+theorem mergeCls_neg (cls : Classes) (x y : String) (hc : ¬ (classOf cls x).contains y = true) :
+    mergeCls cls x y = (classOf cls x ++ classOf cls y) :: cls.filter (fun c => !c.contains x && !c.contains y) := by
+  unfold mergeCls; rw [if_neg hc]
+
+theorem mergeCls_joins (cls : Classes) (x y : String) : y ∈ classOf (mergeCls cls x y) x := by
+  by_cases hc : (classOf cls x).contains y = true
+  · rw [mergeCls_pos cls x y hc]; simpa using hc
+  · have hx : (classOf cls x ++ classOf cls y).contains x = true := by
+      simp [self_mem_classOf cls x]
+    rw [mergeCls_neg cls x y hc, classOf_head _ _ _ hx]
+    exact List.mem_append_right _ (self_mem_classOf cls y)
+
+theorem mergeCls_mono (cls : Classes) (h : Disj cls) (x y a b : String) (hab : b ∈ classOf cls a) :
+    b ∈ classOf (mergeCls cls x y) a := by
+  by_cases hc : (classOf cls x).contains y = true
+  · rw [mergeCls_pos cls x y hc]; exact hab
+  · have hm := mergeCls_neg cls x y hc
+    by_cases ha : a ∈ classOf cls x ∨ a ∈ classOf cls y
+    · -- `a` is in one of the merged classes, and so is `b`
+      have hb : b ∈ classOf cls x ++ classOf cls y := by
+        rcases ha with ha | ha
+        · rw [classOf_eq_of_mem cls h x a ha] at hab; exact List.mem_append_left _ hab
+        · rw [classOf_eq_of_mem cls h y a ha] at hab; exact List.mem_append_right _ hab
+      have hhead : (classOf cls x ++ classOf cls y).contains a = true := by
+        rcases ha with ha | ha <;> simp [ha]
+      rw [hm, classOf_head _ _ _ hhead]
+      exact hb
+    · have hax : a ∉ classOf cls x := fun e => ha (Or.inl e)
+      have hay : a ∉ classOf cls y := fun e => ha (Or.inr e)
+      rcases classOf_cases cls a with hca | ⟨he, _⟩
+      · -- the class of `a` survives the filter and is still the class of `a`
+        have hxa : x ∉ classOf cls a := by
+          intro e
+          have := classOf_eq_of_mem cls h a x e
+          exact hax (this ▸ self_mem_classOf cls a)
+        have hya : y ∉ classOf cls a := by
+          intro e
+          have := classOf_eq_of_mem cls h a y e
+          exact hay (this ▸ self_mem_classOf cls a)
+        have hkept : classOf cls a ∈ cls.filter (fun c => !c.contains x && !c.contains y) :=
+          List.mem_filter.mpr ⟨hca, by simp [hxa, hya]⟩
+        have hin : classOf cls a ∈ mergeCls cls x y := by rw [hm]; exact List.mem_cons_of_mem _ hkept
+        rw [classOf_of_mem _ (mergeCls_disj cls h x y) _ hin a (self_mem_classOf cls a)]
+        exact hab
+      · rw [he] at hab
+        have : b = a := by simpa using hab
+        rw [this]
+        exact self_mem_classOf _ a
+
+/-- the fold of `setup_families` keeps the classes disjoint and never separates what it has joined -/
+theorem finalClasses_spec (samples : List String) (trios : List Trio) :
+    Disj (finalClasses samples trios) ∧
+    ∀ t ∈ trios, t.child ∈ classOf (finalClasses samples trios) t.father ∧
+      t.child ∈ classOf (finalClasses samples trios) t.mother := by
+  unfold finalClasses
+  have init : Disj (samples.map ([·])) := by
+    intro c hc c' hc' z hz hz'
+    obtain ⟨s, _, rfl⟩ := List.mem_map.mp hc
+    obtain ⟨s', _, rfl⟩ := List.mem_map.mp hc'
+    have e1 : z = s := by simpa using hz
+    have e2 : z = s' := by simpa using hz'
+    rw [← e1, ← e2]
+  generalize samples.map ([·]) = cls0 at init
+  -- generalised over the starting classes and the trios already joined
+  suffices H : ∀ (ts : List Trio) (cls : Classes) (done : List Trio), Disj cls →
+      (∀ t ∈ done, t.child ∈ classOf cls t.father ∧ t.child ∈ classOf cls t.mother) →
+      Disj (ts.foldl (fun c t => mergeCls (mergeCls c t.father t.child) t.mother t.child) cls) ∧
+      ∀ t ∈ done ++ ts, t.child ∈ classOf (ts.foldl (fun c t => mergeCls (mergeCls c t.father t.child) t.mother t.child) cls) t.father ∧
+        t.child ∈ classOf (ts.foldl (fun c t => mergeCls (mergeCls c t.father t.child) t.mother t.child) cls) t.mother by
+    have := H trios cls0 [] init (fun t ht => by cases ht)
+    simpa using this
+  intro ts
+  induction ts with
+  | nil => intro cls done hd hdone; exact ⟨hd, by simpa using hdone⟩
+  | cons t rest ih =>
+    intro cls done hd hdone
+    simp only [List.foldl_cons]
+    have hd1 := mergeCls_disj cls hd t.father t.child
+    have hd2 := mergeCls_disj _ hd1 t.mother t.child
+    have hnew : ∀ u ∈ done ++ [t], u.child ∈ classOf (mergeCls (mergeCls cls t.father t.child) t.mother t.child) u.father ∧
+        u.child ∈ classOf (mergeCls (mergeCls cls t.father t.child) t.mother t.child) u.mother := by
+      intro u hu
+      rcases List.mem_append.mp hu with hu | hu
+      · obtain ⟨a, b⟩ := hdone u hu
+        exact ⟨mergeCls_mono _ hd1 _ _ _ _ (mergeCls_mono _ hd _ _ _ _ a),
+               mergeCls_mono _ hd1 _ _ _ _ (mergeCls_mono _ hd _ _ _ _ b)⟩
+      · have : u = t := by simpa using hu
+        subst this
+        exact ⟨mergeCls_mono _ hd1 _ _ _ _ (mergeCls_joins cls u.father u.child), mergeCls_joins _ u.mother u.child⟩
+    have := ih _ (done ++ [t]) hd2 hnew
+    simpa [List.append_assoc] using this
+
+/-! ### the representative is the minimum of the class -/
+
+theorem minStr_cons (d a : String) (t : List String) : minStr d (a :: t) = minStr (if a < d then a else d) t := rfl
+
+theorem minStr_spec (l : List String) : ∀ d, (minStr d l = d ∨ minStr d l ∈ l) ∧ minStr d l ≤ d ∧ ∀ z ∈ l, minStr d l ≤ z := by
+  induction l with
+  | nil => intro d; exact ⟨Or.inl rfl, String.le_refl _, fun z hz => by cases hz⟩
+  | cons a t ih =>
+    intro d
+    rw [minStr_cons]
+    by_cases hlt : a < d
+    · rw [if_pos hlt]
+      obtain ⟨h1, h2, h3⟩ := ih a
+      refine ⟨?_, String.le_trans h2 (String.not_lt.mp (String.lt_asymm hlt)), ?_⟩
+      · rcases h1 with h | h
+        · exact Or.inr (by rw [h]; exact List.mem_cons_self ..)
+        · exact Or.inr (List.mem_cons_of_mem _ h)
+      · intro z hz
+        rcases List.mem_cons.mp hz with rfl | hz'
+        · exact h2
+        · exact h3 z hz'
+    · rw [if_neg hlt]
+      obtain ⟨h1, h2, h3⟩ := ih d
+      refine ⟨?_, h2, ?_⟩
+      · rcases h1 with h | h
+        · exact Or.inl h
+        · exact Or.inr (List.mem_cons_of_mem _ h)
+      · intro z hz
+        rcases List.mem_cons.mp hz with rfl | hz'
+        · exact String.le_trans h2 (String.not_lt.mp hlt)
+        · exact h3 z hz'
+
+theorem minStr_eq_of_mem (l : List String) (x y : String) (hx : x ∈ l) (hy : y ∈ l) : minStr x l = minStr y l := by
+  obtain ⟨a1, a2, a3⟩ := minStr_spec l x
+  obtain ⟨b1, b2, b3⟩ := minStr_spec l y
+  have m1 : minStr x l ∈ l := by
+    rcases a1 with h | h
+    · rw [h]; exact hx
+    · exact h
+  have m2 : minStr y l ∈ l := by
+    rcases b1 with h | h
+    · rw [h]; exact hy
+    · exact h
+  exact String.le_antisymm (a3 _ m2) (b3 _ m1)
+
+theorem repOf_eq_of_mem (cls : Classes) (h : Disj cls) (x z : String) (hz : z ∈ classOf cls x) : repOf cls z = repOf cls x := by
+  unfold repOf
+  rw [classOf_eq_of_mem cls h x z hz]
+  exact minStr_eq_of_mem _ z x hz (self_mem_classOf cls x)
+
+
 end WhVerif.Lemmas.C20Files
